@@ -1,5 +1,5 @@
 (* C07 — binary STL round trip and size law.  Statements only; proofs live in Formats/StlProofs.v. *)
-From PF Require Import Base.Bytes Formats.Stl Formats.StlProofs.
+From PF Require Import Base.Bytes Formats.Stl Formats.StlProofs Check.C07 Formats.StlBigProofs.
 Open Scope N_scope.
 
 (* 84 + 50*n bytes for n triangles, for every n including 0 *)
@@ -45,6 +45,94 @@ Theorem stl_prefix_rejected : forall hdr ts k,
 Proof. exact read_prefix_rejected. Qed.
 Print Assumptions stl_prefix_rejected.
 
+(* ---- reading then writing, input with trailing bytes ----
+   stl.Read ignores whatever follows the announced records (no hypothesis on the length of the input): writing
+   the result reproduces exactly the first 84 + 50 n bytes — header, count and the triangle records *)
+Theorem stl_read_write_trailing : forall bytes hdr ts,
+  bytes_ok bytes -> read bytes = Some (hdr, ts) ->
+  write hdr ts = firstn (84 + 50 * length ts) bytes /\ (84 + 50 * length ts <= length bytes)%nat.
+Proof. exact write_read_prefix. Qed.
+Print Assumptions stl_read_write_trailing.
+
+(* ---- the chunked reader ----
+   stl.Read asks binary.Read for min(remaining, 4096) records per iteration (read_chunked stl_chunk).  For EVERY
+   chunk size k >= 1, every announced count and every byte string (well-formed or not, short or with trailing
+   bytes) the chunk loop returns what the one-pass reader [read] returns — so every theorem about [read] above
+   is a theorem about the chunked reader, at and around every chunk boundary *)
+Theorem stl_read_chunk_independent : forall k bytes, 1 <= k -> read_chunked k bytes = read bytes.
+Proof. exact read_chunked_eq_read. Qed.
+Print Assumptions stl_read_chunk_independent.
+
+Theorem stl_chunked_roundtrip : forall hdr ts extra,
+  length hdr = 80%nat -> Forall tri_ok ts -> N.of_nat (length ts) < 4294967296 ->
+  read_chunked stl_chunk (write hdr ts ++ extra) = Some (hdr, ts).
+Proof.
+  intros. rewrite read_chunked_eq_read by (unfold stl_chunk; lia). apply read_write_trailing; assumption.
+Qed.
+Print Assumptions stl_chunked_roundtrip.
+
+(* ---- which word is stored where ----
+   record t of a written file occupies bytes 84 + 50 t .. 84 + 50 t + 49; by definition
+   rec50 t = vec12 normal ++ vec12 v1 ++ vec12 v2 ++ vec12 v3 ++ le16 attribute (little-endian words) *)
+Theorem stl_record_layout : forall hdr ts t d, length hdr = 80%nat -> (t < length ts)%nat ->
+  exists pre post, write hdr ts = pre ++ rec50 (nth t ts d) ++ post /\ length pre = (84 + 50 * t)%nat.
+Proof. exact write_record_at. Qed.
+Print Assumptions stl_record_layout.
+
+(* what stl.WriteMesh writes: 80 zero bytes and the little-endian count ... *)
+Theorem stl_mesh_header : forall idx pos fns bytes,
+  write_mesh idx (Some pos) fns = Some bytes -> length idx = (3 * length fns)%nat ->
+  exists recs, bytes = repeat 0 80 ++ le32 (N.of_nat (length fns)) ++ recs /\ length recs = (50 * length fns)%nat.
+Proof. exact mesh_header. Qed.
+Print Assumptions stl_mesh_header.
+
+(* ... and for triangle t, at byte offset 84 + 50 t: the facet-normal words fns[t] (their VALUE — the normalised
+   mean of the three corner normals, zero without normals — is float arithmetic, judged by the harness against
+   an independent float64 computation), then the float32 words of the positions of vertices idx[3t], idx[3t+1],
+   idx[3t+2] in this order, then a zero attribute word *)
+Theorem stl_mesh_record_layout : forall idx pos fns bytes t,
+  write_mesh idx (Some pos) fns = Some bytes -> length idx = (3 * length fns)%nat -> (t < length fns)%nat ->
+  let corner j := nth (nth j idx O) pos vzero in
+  exists pre post,
+    bytes = pre ++ vec12 (nth t fns vzero) ++ vec12 (corner (3 * t)%nat) ++ vec12 (corner (3 * t + 1)%nat)
+                ++ vec12 (corner (3 * t + 2)%nat) ++ [0; 0] ++ post
+    /\ length pre = (84 + 50 * t)%nat.
+Proof. exact mesh_record_at. Qed.
+Print Assumptions stl_mesh_record_layout.
+
+(* reading back: corner j of the result carries the facet normal stored for triangle j / 3
+   (Flat = the stored words are +-0: stl.ReadMesh substitutes the geometric normal, harness-checked) *)
+Theorem stl_facet_normal_read_back : forall idx pos fns,
+  length idx = (3 * length fns)%nat -> Forall (fun i => (i < length pos)%nat) idx ->
+  Forall vec_ok pos -> Forall vec_ok fns -> N.of_nat (length fns) < 4294967296 ->
+  existsb (fun f => negb (vec_zero f)) fns = true ->
+  exists bytes m ns,
+    write_mesh idx (Some pos) fns = Some bytes /\ read_mesh bytes = Some m /\ r_nrm m = Some ns /\
+    length ns = length idx /\
+    forall j, (j < length idx)%nat -> nth j ns Flat = vec_nrm (nth (j / 3) fns vzero).
+Proof. exact mesh_normals_read_back. Qed.
+Print Assumptions stl_facet_normal_read_back.
+
+(* ---- what the large cases of the check rest on (Check/C07.v evaluates fingerprints, not byte lists) ---- *)
+(* (StlBigProofs.fp_file_spec : fp_file hdr ts extra = fp (write hdr ts ++ extra) — the streamed fingerprint is
+   the fingerprint of the model's bytes; not restated here because its statement mentions Coq's primitive 63-bit
+   integers, which Print Assumptions lists as kernel primitives) *)
+
+(* the model's answer on a synthetic file of any size, with any trailing bytes *)
+Theorem stl_big_file_model : forall hdr ts extra,
+  length hdr = 80%nat -> forallb tri_okb ts = true -> N.of_nat (length ts) < 4294967296 ->
+  read_chunked stl_chunk (write hdr ts ++ extra) = Some (hdr, ts).
+Proof. exact big_file_model. Qed.
+Print Assumptions stl_big_file_model.
+
+(* the model's bytes for a mesh whose index buffer and vertex list are given by functions *)
+Theorem stl_big_mesh_model : forall (g : N -> N) (f fn : N -> vec) nv n part,
+  (forall j, g j < N.of_nat nv) ->
+  write_mesh (map (fun j => N.to_nat (g j)) (iota (3 * n) 0) ++ part) (Some (map f (iota nv 0))) (map fn (iota n 0))
+  = Some (write zero_hdr (tris_from n 0 fn (fun j => f (g j)))).
+Proof. exact big_mesh_model. Qed.
+Print Assumptions stl_big_mesh_model.
+
 (* non-vacuity: a concrete welded 2-triangle mesh meets the hypotheses and round-trips *)
 Example stl_example :
   let idx := [0; 1; 2; 2; 1; 3]%nat in
@@ -53,3 +141,12 @@ Example stl_example :
   option_map (@length N) (write_mesh idx (Some pos) fns) = Some 184%nat /\
   option_map r_nverts (bind (write_mesh idx (Some pos) fns) read_mesh) = Some 6%nat.
 Proof. vm_compute. split; reflexivity. Qed.
+
+(* non-vacuity of the chunk theorem: 5 records, chunk size 2 (three iterations, the last one partial), trailing
+   bytes; and a file cut inside the last chunk is rejected by both readers *)
+Example stl_chunk_example :
+  let ts := synth_tris 7 false 5 in
+  let bytes := write (synth_hdr 7) ts ++ [1; 2; 3] in
+  read_chunked 2 bytes = Some (synth_hdr 7, ts) /\ read bytes = Some (synth_hdr 7, ts) /\
+  read_chunked 2 (firstn 300 bytes) = None /\ read (firstn 300 bytes) = None.
+Proof. vm_compute. repeat split; reflexivity. Qed.
